@@ -39,7 +39,13 @@ def make_units(profile, seed, tier, index, opts):
     """one base grammar -> list of units (variants). Each unit: dict(uid, base, variant, grammar, text, cases)"""
     g = ggen.generate("%s" % seed, profile, index + 1)[-1] if False else None
     rnd = random.Random("%s/%s/%d" % (seed, profile, index))
-    g = ggen.Gen(rnd, ggen.profile(profile)).grammar()
+    fixed_inputs = None
+    if profile == "memofam":
+        import families
+        g, fixed_inputs, _ = families.fam(index)
+        check_wellformed(g)
+    else:
+        g = ggen.Gen(rnd, ggen.profile(profile)).grammar()
     variants = [("base", g)]
     if opts.get("memo_variants"):
         variants = memo_variants(g, rnd)
@@ -54,6 +60,9 @@ def make_units(profile, seed, tier, index, opts):
     irnd = random.Random("%s/%s/%d/inputs" % (seed, profile, index))
     cases_by_rule = {}
     for r in g.exported():
+        if fixed_inputs is not None:
+            cases_by_rule[r.name] = list(fixed_inputs.get(r.name, []))
+            continue
         cases_by_rule[r.name] = inputs_mod.inputs_for(
             g, r.name, irnd, n_sent=t["n_sent"], n_total=t["n_inputs"],
             ws_inject=opts.get("ws_inject", False), unicode_heavy=opts.get("unicode_heavy", False))
@@ -224,6 +233,7 @@ def phaseC_worker(args):
         results = {}
         stats = {"accepted": 0, "rejected_progress": 0, "rejected_at0": 0, "cases": 0, "nontrivial": {}}
         samples = []
+        case_facts = []
         for (cid, rule, inp, budget) in u["cases"]:
             o = obs.get(cid)
             if o is None:
@@ -238,6 +248,9 @@ def phaseC_worker(args):
                     r0 = o[m][0]["result"]
                     break
             results[cid] = r0
+            if monitor_opts.get("keep_facts"):
+                case_facts.append({"rule": rule, "input": inp, "facts": {k: v for k, v in facts.items() if k in ("memo_body_evals", "steps_impl", "steps_model")},
+                                   "len": len(inp.encode("utf-8")), "ok": bool(r0 and r0[0] == "ok")})
             if r0 and r0[0] == "ok":
                 stats["accepted"] += 1
             elif r0 and r0[0] == "err":
@@ -257,6 +270,7 @@ def phaseC_worker(args):
                     "findings": findings[:50], "nfindings": len(findings), "stats": stats,
                     "results": results if monitor_opts.get("keep_results") else None,
                     "samples": samples, "text": u["text"] if (findings or samples) else None,
+                    "case_facts": case_facts, "nrules": len(u["grammar"].normal_rules()),
                     "features": {"memo": ui.has_memo, "lr": ui.has_lr, "userfn": ui.has_userfn,
                                  "ctx": u["grammar"].user_ctx}})
     return out
@@ -311,6 +325,8 @@ def run_profile(profile, seed, tier, opts=None, flavor="dev-hooks", modes=7, sca
     t0 = time.time()
     t = TIERS[tier]
     ngr = max(4, int(t["grammars"] * scale * opts.get("grammar_scale", 1.0)))
+    if profile == "memofam":
+        ngr = 5
     build.debug_table()
     build.tool_cgdrv()
     # ---- phase A
@@ -344,12 +360,13 @@ def run_profile(profile, seed, tier, opts=None, flavor="dev-hooks", modes=7, sca
     batches = []
     for i in range(0, len(good), bs):
         grp = good[i:i + bs]
-        batches.append(("b%d" % (i // bs), [{"gidx": u["uid"], "code_path": os.path.join(rundir, "g%d.rs" % u["uid"]),
+        batches.append((build.unique_bin("b%d" % (i // bs)), [{"gidx": u["uid"], "code_path": os.path.join(rundir, "g%d.rs" % u["uid"]),
                                             "exports": u["exports"], "ctx": u["ctx"], "extra_rust": u.get("extra_rust", "")} for u in grp]))
     crate = os.path.join(rundir, "crate")
     tgt = build.tool_vfrt(flavor)
     compile_fail = []
     bins = {}
+    allb = {name: units_ for name, units_ in batches}
     remaining = batches
     for attempt in range(3):
         if not remaining:
@@ -357,6 +374,12 @@ def run_profile(profile, seed, tier, opts=None, flavor="dev-hooks", modes=7, sca
         build.write_batch_crate(crate, remaining)
         ok, failures, proc = build.build_batch_crate(crate, tgt, build.flavor_flags(flavor))
         bins.update({k: v for k, v in ok.items() if k.startswith("b")})
+        # move the executables out of the shared target dir right away
+        for k in list(ok):
+            if k.startswith("b") and os.path.exists(ok[k]) and not ok[k].startswith(rundir):
+                dst = os.path.join(rundir, k + ".bin")
+                shutil.move(ok[k], dst)
+                bins[k] = dst
         nxt = []
         for name, units_ in remaining:
             if name in bins:
@@ -377,19 +400,16 @@ def run_profile(profile, seed, tier, opts=None, flavor="dev-hooks", modes=7, sca
             rest = [u for u in units_ if u["gidx"] not in bad]
             if rest:
                 nxt.append((name + "r", rest))
+                allb[name + "r"] = allb.get(name, units_)
         remaining = nxt
         shutil.rmtree(crate, ignore_errors=True)
     tB = time.time()
     # ---- run
-    allb = {}
-    for name, units_ in batches:
-        allb[name] = units_
     # rebuild mapping bin -> units actually inside (after retries names end with r..)
     bin_units = {}
     for name in bins:
-        base = name.rstrip("r")
         bad = {c.get("uid") for c in compile_fail}
-        bin_units[name] = [u for u in allb[base] if u["gidx"] not in bad]
+        bin_units[name] = [u for u in allb[name] if u["gidx"] not in bad]
     crashes = []
 
     def run_one(name):
@@ -437,7 +457,7 @@ def run_profile(profile, seed, tier, opts=None, flavor="dev-hooks", modes=7, sca
     chunks = [good_uids[i::nw] for i in range(nw)]
     per_unit = []
     with ProcessPoolExecutor(max_workers=nw) as ex:
-        for res in ex.map(phaseC_worker, [(rundir, c, {"keep_results": bool(opts.get("memo_variants") or opts.get("inline_variants"))}) for c in chunks if c]):
+        for res in ex.map(phaseC_worker, [(rundir, c, {"keep_results": bool(opts.get("memo_variants") or opts.get("inline_variants")), "keep_facts": profile == "memofam"}) for c in chunks if c]):
             per_unit += res
     per_unit.sort(key=lambda r: r["uid"])
     tC = time.time()
@@ -480,6 +500,7 @@ def summarise(profile, seed, tier, opts, units, per_unit, pgen_fail, compile_fai
     stats = {"accepted": 0, "rejected_progress": 0, "rejected_at0": 0, "cases": 0, "nontrivial": {}}
     samples = []
     variants = {}
+    case_facts_all = []
     for r in per_unit:
         if "skipped" in r:
             counters["units_without_log"] = counters.get("units_without_log", 0) + 1
@@ -499,6 +520,8 @@ def summarise(profile, seed, tier, opts, units, per_unit, pgen_fail, compile_fai
             s = dict(r["samples"][0])
             s["grammar_text"] = r["text"]
             samples.append(s)
+        if r.get("case_facts"):
+            case_facts_all.append({"uid": r["uid"], "base": r["base"], "nrules": r.get("nrules"), "text": r["text"], "cases": r["case_facts"]})
         if r.get("results") is not None:
             variants.setdefault(r["base"], {})[r["variant"]] = {"results": r["results"], "text": r["text"], "uid": r["uid"]}
     # metamorphic comparison across variants of the same base grammar (C05 / C13)
@@ -539,7 +562,7 @@ def summarise(profile, seed, tier, opts, units, per_unit, pgen_fail, compile_fai
             "compile_fail": compile_fail[:20], "n_compile_fail": len(compile_fail),
             "crashes": crashes[:20], "timeouts": timeouts,
             "counters": counters, "stats": stats, "findings": findings[:200], "nfindings": len(findings),
-            "variant_findings": vfind[:50], "variant_stats": vstats, "samples": samples}
+            "variant_findings": vfind[:50], "variant_stats": vstats, "samples": samples, "case_facts": case_facts_all}
 
 
 def prune_runs(limit_bytes=3 << 30):
